@@ -1,0 +1,231 @@
+#ifndef _BINSON_VERIF_H_
+#define _BINSON_VERIF_H_
+
+/**
+ * @file binson_verif.h
+ *
+ * Verification hooks: function and loop contracts for the CBMC model
+ * checker, written next to the code they describe.
+ *
+ * Every VC_* macro expands to NOTHING unless BINSON_C_LIGHT_VERIF is
+ * defined, so a normal build is unaffected (the preprocessed sources
+ * are token-identical to a tree without the annotations).
+ *
+ * With BINSON_C_LIGHT_VERIF the sources are only meant to be compiled
+ * by goto-cc (the __CPROVER_* syntax is not C).
+ */
+
+#ifndef BINSON_C_LIGHT_VERIF
+
+#define VC_REQUIRES(...)
+#define VC_ENSURES(...)
+#define VC_ASSIGNS(...)
+#define VC_LOOP_INVARIANT(...)
+#define VC_LOOP_ASSIGNS(...)
+#define VC_DECREASES(...)
+
+#else /* BINSON_C_LIGHT_VERIF */
+
+#define VC_REQUIRES(...)        __CPROVER_requires(__VA_ARGS__)
+#define VC_ENSURES(...)         __CPROVER_ensures(__VA_ARGS__)
+#define VC_ASSIGNS(...)         __CPROVER_assigns(__VA_ARGS__)
+#define VC_LOOP_INVARIANT(...)  __CPROVER_loop_invariant(__VA_ARGS__)
+#define VC_LOOP_ASSIGNS(...)    __CPROVER_assigns(__VA_ARGS__)
+#define VC_DECREASES(...)       __CPROVER_decreases(__VA_ARGS__)
+
+#define VC_RET                  __CPROVER_return_value
+#define VC_OLD(x)               __CPROVER_old(x)
+/* "p points to a valid object of n bytes that is separate from every other object of the
+ * contract". Written with __CPROVER_is_fresh by default. The proofs that ENFORCE a contract build
+ * the objects in their harness (typed malloc'ed blocks of exactly these sizes, all distinct) and
+ * compile with VC_HARNESS_OBJECTS, where the clause only restates that the block is accessible:
+ * is_fresh re-allocates the objects as untyped byte arrays, which made every parser proof two
+ * orders of magnitude slower (measured) without proving more. */
+#ifdef VC_HARNESS_OBJECTS
+#define VC_FRESH(p, n)          __CPROVER_r_ok(p, n)
+#else
+#define VC_FRESH(p, n)          __CPROVER_is_fresh(p, n)
+#endif
+#define VC_PTR_EQ(p, q)         __CPROVER_pointer_equals(p, q)
+
+/* Largest buffer the proofs quantify over (CBMC objects are < 2^(64-object_bits) bytes;
+ * the property asks for 64 KiB, the format for INT32_MAX-sized payloads). */
+#ifndef VC_MAX_BUF
+#define VC_MAX_BUF              ((size_t) 1 << 32)
+#endif
+
+/*---------------------------------------------------------------------------*/
+/* Byte-level specification of the Binson integer encodings                  */
+/*---------------------------------------------------------------------------*/
+
+/* unsigned little-endian value of w bytes at p */
+#define VC_LE16(p)  ((uint64_t) (p)[0] | ((uint64_t) (p)[1] << 8))
+#define VC_LE32(p)  (VC_LE16(p) | ((uint64_t) (p)[2] << 16) | ((uint64_t) (p)[3] << 24))
+#define VC_LE64(p)  (VC_LE32(p) | ((uint64_t) (p)[4] << 32) | ((uint64_t) (p)[5] << 40) | \
+                     ((uint64_t) (p)[6] << 48) | ((uint64_t) (p)[7] << 56))
+
+/* two's complement value of the w-byte little-endian integer at p, as int64_t,
+ * written with arithmetic only (no implementation-defined narrowing) */
+#define VC_S8(p)    ((int64_t) (p)[0] - (((p)[0] & 0x80U) ? 256 : 0))
+#define VC_S16(p)   ((int64_t) VC_LE16(p) - (((p)[1] & 0x80U) ? 65536 : 0))
+#define VC_S32(p)   ((int64_t) VC_LE32(p) - (((p)[3] & 0x80U) ? 4294967296LL : 0))
+#define VC_SVAL(p, w) (((w) == 1) ? VC_S8(p) : ((w) == 2) ? VC_S16(p) : VC_S32(p))
+
+/* the unique shortest width (1/2/4/8) of a value */
+#define VC_FITS8(v)   ((v) >= -128 && (v) <= 127)
+#define VC_FITS16(v)  ((v) >= -32768 && (v) <= 32767)
+#define VC_FITS32(v)  ((v) >= -2147483648LL && (v) <= 2147483647LL)
+#define VC_WIDTH(v)   (VC_FITS8(v) ? 1 : VC_FITS16(v) ? 2 : VC_FITS32(v) ? 4 : 8)
+
+/*---------------------------------------------------------------------------*/
+/* Parser: representation invariant                                           */
+/*---------------------------------------------------------------------------*/
+
+/* Ghost level index: an arbitrary but fixed level of the state array. Proving
+ * "L(vc_k) before => L(vc_k) after" for an unconstrained vc_k is proving it for
+ * every level (the code never reads vc_k). Used instead of quantifiers. */
+extern size_t vc_k;
+
+#define VC_ST_UNDEF   0x0000U
+#define VC_ST_FIELD   0x0001U   /* BINSON_STATE_IN_OBJ_EXPECTING_FIELD */
+#define VC_ST_VALUE   0x0002U   /* BINSON_STATE_IN_OBJ_EXPECTING_VALUE */
+#define VC_ST_ARR1    0x0004U   /* BINSON_STATE_IN_ARRAY_1 */
+#define VC_ST_ARR2    0x0008U   /* BINSON_STATE_IN_ARRAY_2 */
+#define VC_PT_OBJECT  0x01U
+#define VC_PT_ARRAY   0x02U
+
+/* index of the level in use */
+#define VC_IDX(p)       (((p)->depth > 0) ? (size_t) (p)->depth - 1 : (size_t) 0)
+
+/* b is a span inside the parser's input buffer */
+#define VC_IN_BUF(p, b) (__CPROVER_same_object((b).bptr, (p)->buffer) &&                            \
+                         (size_t) __CPROVER_POINTER_OFFSET((b).bptr) <= (p)->buffer_size &&          \
+                         (b).bsize <= (p)->buffer_size - (size_t) __CPROVER_POINTER_OFFSET((b).bptr))
+#define VC_SPAN_OK(p, b) ((b).bptr == NULL || VC_IN_BUF(p, b))
+#define VC_FLAGS_OK(f)  ((f) == VC_ST_UNDEF || (f) == VC_ST_FIELD || (f) == VC_ST_VALUE ||         \
+                         (f) == VC_ST_ARR1 || (f) == VC_ST_ARR2)
+
+/* one level of the state array is well formed: the name is absent or a span of the
+ * buffer, a string/bytes value is a span of the buffer, the flag word is one of the
+ * five legal values */
+#define VC_LEVEL_OK(p, s)                                                                           \
+    (VC_SPAN_OK(p, (s)->current_name) &&                                                            \
+     (((s)->current_type == BINSON_TYPE_STRING || (s)->current_type == BINSON_TYPE_BYTES) ==>       \
+      VC_IN_BUF(p, (s)->current_value.string_value)) &&                                             \
+     VC_FLAGS_OK((s)->flags))
+
+/* a level holds nothing (as after memset 0) */
+#define VC_LEVEL_ZERO(s)                                                                            \
+    ((s)->current_name.bptr == NULL && (s)->current_name.bsize == 0 &&                              \
+     (s)->current_value.raw.bptr == NULL && (s)->current_value.raw.bsize == 0 &&                    \
+     (s)->current_type == BINSON_TYPE_NONE && (s)->flags == VC_ST_UNDEF && (s)->array_depth == 0)
+
+/* levels that are not in use hold nothing, so that entering a level starts clean
+ * (index 0 doubles as the level of a parser that has not entered its root object yet) */
+#define VC_LEVEL_CLEAN(p, i, s)                                                                     \
+    (((i) >= (p)->depth && (i) >= 1) ==> VC_LEVEL_ZERO(s))
+
+/* valid, separate caller objects: parser struct, state array of exactly max_depth
+ * entries, input buffer of exactly buffer_size bytes */
+#define VC_PTRS(p)                                                                                  \
+    (VC_FRESH(p, sizeof(*(p))) && (p)->max_depth >= 1 &&                                            \
+     VC_FRESH((p)->state, (size_t) (p)->max_depth * sizeof(binson_state)) &&                        \
+     (p)->buffer_size <= VC_MAX_BUF && VC_FRESH((p)->buffer, (p)->buffer_size))
+
+/* what holds of the scalar fields whenever no error is latched */
+#define VC_WF_SCALARS(p)                                                                            \
+    ((p)->buffer_used <= (p)->buffer_size &&                                                        \
+     ((p)->type == VC_PT_OBJECT || (p)->type == VC_PT_ARRAY) && (p)->cb == NULL)
+
+/* Class invariant as the API functions see it (E1): the scalar fields and the level in use.
+ * EQ = how "current_state points at state[idx]" is written: __CPROVER_pointer_equals in
+ * requires/ensures, == in loop invariants and harness assertions.
+ * The facts about ALL levels of the state array (VC_LEVEL_FACTS) are carried by the proof of
+ * _advance_parsing (E2), the only function besides reset that writes the state array. */
+#define VC_INV_(p, EQ)                                                                              \
+    ((p)->depth <= (p)->max_depth && EQ((p)->current_state, &(p)->state[VC_IDX(p)]) &&              \
+     ((p)->error_flags == BINSON_ERROR_NONE ==>                                                     \
+      (VC_WF_SCALARS(p) && VC_LEVEL_OK(p, (p)->current_state))))
+#define VC_EQ_PLAIN(a, b) ((a) == (b))
+#define VC_INV(p)       VC_INV_(p, VC_PTR_EQ)
+
+/* the parts of the parser that no API call after init may change */
+#define VC_SAME_CONFIG(p)                                                                           \
+    ((p)->type == VC_OLD((p)->type) && (p)->max_depth == VC_OLD((p)->max_depth) &&                  \
+     (p)->buffer == VC_OLD((p)->buffer) && (p)->buffer_size == VC_OLD((p)->buffer_size) &&          \
+     (p)->state == VC_OLD((p)->state))
+
+/* frame of every navigation call: the navigation fields and the state array */
+#define VC_NAV_FRAME(p)                                                                             \
+    (p)->depth, (p)->buffer_used, (p)->error_flags, (p)->current_state,                             \
+    __CPROVER_object_whole((p)->state)
+
+
+/*---------------------------------------------------------------------------*/
+/* _advance_parsing: the token loop                                           */
+/*---------------------------------------------------------------------------*/
+
+#define VC_ADV_VERIFY   0x01U
+#define VC_ADV_VALUE    0x20U
+
+/* names handed to a lookup: any length the format admits */
+#define VC_MAX_NAME     ((size_t) 2147483647)
+
+/* Explicit conjunction of a per-level fact M(p, i) over the VC_MD levels of the
+ * state array. The loop invariant needs every level at once (the current level
+ * moves), CBMC's quantifiers are not usable on the SAT back end, so the proof
+ * of the loop is run with max_depth fixed to the constant VC_MD (enumerated). */
+#ifdef VC_MD
+#if VC_MD == 1
+#define VC_ALL_LEVELS(M, p) (M(p, 0))
+#elif VC_MD == 2
+#define VC_ALL_LEVELS(M, p) (M(p, 0) && M(p, 1))
+#elif VC_MD == 3
+#define VC_ALL_LEVELS(M, p) (M(p, 0) && M(p, 1) && M(p, 2))
+#elif VC_MD == 4
+#define VC_ALL_LEVELS(M, p) (M(p, 0) && M(p, 1) && M(p, 2) && M(p, 3))
+#elif VC_MD == 5
+#define VC_ALL_LEVELS(M, p) (M(p, 0) && M(p, 1) && M(p, 2) && M(p, 3) && M(p, 4))
+#elif VC_MD == 6
+#define VC_ALL_LEVELS(M, p) (M(p, 0) && M(p, 1) && M(p, 2) && M(p, 3) && M(p, 4) && M(p, 5))
+#else
+#error "VC_MD must be 1..6"
+#endif
+#else
+/* without VC_MD (every E1 run) the per-level conjunction is not stated: the callers of
+ * _advance_parsing only use the facts about the level in use */
+#define VC_ALL_LEVELS(M, p) (1)
+#endif
+
+#define VC_LEVEL_FACTS(p, i)                                                                        \
+    (VC_LEVEL_OK(p, &(p)->state[i]) && VC_LEVEL_CLEAN(p, i, &(p)->state[i]))
+
+/* the part of the invariant that holds at the head of every iteration of the token loop */
+#define VC_ADV_LOOP_INV(p)                                                                          \
+    ((p)->error_flags == BINSON_ERROR_NONE && (p)->depth <= (p)->max_depth &&                       \
+     (p)->current_state == &(p)->state[VC_IDX(p)] && VC_WF_SCALARS(p) &&                            \
+     VC_ALL_LEVELS(VC_LEVEL_FACTS, p))
+
+/* Post-condition of _advance_parsing, parameterised by the entry values so that the
+ * same text serves the in-source contract (VC_OLD(...)) and the E2 harness (snapshots).
+ *   ret      return value            o_err    error_flags at entry
+ *   o_used   buffer_used at entry    o_depth  depth at entry    o_cs  current_state at entry
+ *   LV       VC_ALL_LEVELS-style conjunction to use for the per-level facts */
+#define VC_ADV_POST_INV(p, EQ, LV)                                                                  \
+    ((p)->depth <= (p)->max_depth && EQ((p)->current_state, &(p)->state[VC_IDX(p)]) &&              \
+     ((p)->error_flags == BINSON_ERROR_NONE ==>                                                     \
+      (VC_WF_SCALARS(p) && VC_LEVEL_OK(p, (p)->current_state) && LV(VC_LEVEL_FACTS, p))))
+#define VC_ADV_POST_LATCH(p, ret, o_err, o_used, o_depth, o_cs)                                     \
+    ((o_err) != BINSON_ERROR_NONE ==>                                                               \
+     (!(ret) && (p)->error_flags == (o_err) && (p)->buffer_used == (o_used) &&                      \
+      (p)->depth == (o_depth) && (p)->current_state == (o_cs)))
+#define VC_ADV_POST_TRUE_NO_ERROR(p, ret)                                                           \
+    ((ret) ==> (p)->error_flags == BINSON_ERROR_NONE)
+#define VC_ADV_POST_MONOTONE(p, o_err, o_used)                                                      \
+    ((p)->buffer_used >= (o_used) || (o_err) != BINSON_ERROR_NONE)
+#define VC_ADV_POST_VERIFY_FALSE(ret, scan_flags)                                                   \
+    ((((scan_flags) & VC_ADV_VERIFY) != 0) ==> !(ret))
+
+#endif /* BINSON_C_LIGHT_VERIF */
+
+#endif /* _BINSON_VERIF_H_ */
